@@ -95,6 +95,6 @@ services:
 		"depends-refine":   {Files: map[string]string{"a.yaml": refineBase, "b.yaml": refineOver}, Main: []string{"a.yaml", "b.yaml"}},
 		"depends-short":    {Files: map[string]string{"a.yaml": refineBase}, Main: []string{"a.yaml"}},
 		"extends-samename": {Files: map[string]string{"compose.yaml": sameMain, "common.yaml": sameCommon}, Main: []string{"compose.yaml"}},
-		"spellings": {Files: map[string]string{"a.yaml": a, "b.yaml": b}, Main: []string{"a.yaml", "b.yaml"}},
+		"spellings":        {Files: map[string]string{"a.yaml": a, "b.yaml": b}, Main: []string{"a.yaml", "b.yaml"}},
 	}
 }
